@@ -1,12 +1,15 @@
 """C05 - evaluation is deterministic, idempotent and order-independent.
 
-Engine H over evaluation schedules.  For each of 14 small acyclic models:
+Engine H over evaluation schedules.  For each of 17 small acyclic models:
   seq    every sequence (with repetition) of evaluate(cell) up to a length
          bound by ONE evaluator, on a fresh real model;
   multi  every sequence of (evaluator, cell) up to a length bound with three
          evaluators over the same model (two created up front, one created
          lazily at its first use, i.e. after the model has been written to,
          and with its own namespace in which SUM and COUNTA are overridden);
+  procs  every cell alone in its own fresh interpreter, then all cells in
+         forward and in reverse order in one fresh interpreter each: the
+         values must agree (process-wide caches);
   heap   periodic schedules repeated n times: the number of live gc-tracked
          objects and the traced heap size at the ends of periods
          p, 2p, 4p, ... must not grow (a closed loop in the state space must
@@ -32,7 +35,7 @@ from ..gen import models
 PROPERTY = 'C05'
 LEVEL = 'model_checking'
 ENGINE = 'xlmc-H'
-RULE = ('all evaluate() schedules up to a length bound on 14 models, by one '
+RULE = ('all evaluate() schedules up to a length bound on 17 models, by one '
         'evaluator (seq) and by three evaluators sharing the model (multi), '
         'executed on fresh real models; plus heap-fixpoint runs of periodic '
         'schedules; non-trivial = the schedule evaluates a formula cell after '
@@ -52,7 +55,7 @@ TECHNIQUE = ('exhaustive enumeration of evaluation schedules (1 and 3 '
              'evaluators) on the real implementation against fresh-model '
              'values and an initial-snapshot invariant; heap fixpoint over '
              'periodic schedules')
-LEVEL_TEXT = ('Every order, with repetitions, in which the cells of 14 '
+LEVEL_TEXT = ('Every order, with repetitions, in which the cells of 17 '
               'dependency shapes can be evaluated up to the length bound - by '
               'one evaluator and interleaved over three evaluators - runs on '
               'the real library; each result is compared with the cell '
@@ -148,8 +151,11 @@ def run_seq(spec, seq, ctx):
     last = seq[-1]
     nontriv = len(seq) > 1 and last in spec.formulas
     want = ref_values(spec)[last]
-    ctx.check(key + '#value', got, want, ['oracle:fresh-value'], inputs,
-              nontriv)
+    if models.agrees(got, want):
+        ctx.ok(key + '#value', got, nontriv)
+    else:
+        ctx.fail(key + '#value', ['oracle:fresh-value'], inputs, want, got,
+                 nontriv)
     ctx.check(key + '#snapshot', snapshot(model), snap0,
               ['oracle:inputs-unchanged'], inputs, False)
     ctx.count('transitions')
@@ -176,10 +182,12 @@ def run_multi(spec, seq, ctx):
                len({e for e, _ in seq}) > 1)
     want = ref_values(spec)[last] if seq[-1][0] < 2 else \
         ref_values_custom(spec, last)
-    ctx.check(key + '#value', got, want,
-              ['oracle:fresh-value', 'evaluators:several',
-               'namespace:' + ('default' if seq[-1][0] < 2 else 'custom')],
-              inputs, nontriv)
+    mtags = ['oracle:fresh-value', 'evaluators:several',
+             'namespace:' + ('default' if seq[-1][0] < 2 else 'custom')]
+    if models.agrees(got, want):
+        ctx.ok(key + '#value', got, nontriv)
+    else:
+        ctx.fail(key + '#value', mtags, inputs, want, got, nontriv)
     ctx.check(key + '#snapshot', snapshot(model), snap0,
               ['oracle:inputs-unchanged', 'evaluators:several'], inputs,
               False)
@@ -199,22 +207,30 @@ def heap_run(spec, schedule, n):
     evs = [lib.Evaluator(model), lib.Evaluator(model)]
     top = spec.formulas[-1]
 
+    def ev_(e, c):
+        # the heap run measures memory only; what a cell evaluates to (or
+        # whether it raises) is judged by the seq / multi families
+        try:
+            e.evaluate(c)
+        except Exception:  # noqa: BLE001
+            pass
+
     def period(k):
         if schedule == 'round-robin':
             for c in cells:
-                evs[0].evaluate(c)
+                ev_(evs[0], c)
             return len(cells)
         if schedule == 'single-cell':
-            evs[0].evaluate(top)
+            ev_(evs[0], top)
             return 1
         if schedule == 'two-evaluators':
             for i, c in enumerate(cells):
-                evs[(i + k) % 2].evaluate(c)
+                ev_(evs[(i + k) % 2], c)
             return len(cells)
         if schedule == 'fresh-evaluator-per-period':
             e = lib.Evaluator(model)
             for c in cells:
-                e.evaluate(c)
+                ev_(e, c)
             return len(cells)
         raise AssertionError(schedule)
 
@@ -267,11 +283,59 @@ def run_heap(spec, schedule, n, ctx):
     ctx.sample({'model': spec.name, 'schedule': schedule, 'marks': marks})
 
 
+def fresh_process(spec, cells):
+    """Observations of evaluating ``cells`` in order in a fresh interpreter."""
+    import json
+    import os
+    import subprocess
+    import sys
+    p = subprocess.run(
+        [sys.executable, '-m', 'xlmc.checks.c05_proc', spec.name,
+         ','.join(cells)],
+        cwd=os.path.dirname(os.path.dirname(os.path.dirname(
+            os.path.abspath(__file__)))),
+        stdout=subprocess.PIPE, stderr=subprocess.DEVNULL, text=True,
+        timeout=300)
+    if p.returncode != 0:
+        return None
+    return dict(json.loads(p.stdout.strip().splitlines()[-1]))
+
+
+def run_procs(spec, ctx):
+    """Each cell alone in its own fresh process is the reference; the same
+    cells in forward and in reverse order, each order in one fresh process,
+    must give the same values: catches caches that live in the process (not
+    in the model or the evaluator) and depend on what was evaluated first."""
+    cells = list(spec.eval_cells)
+    inputs = {'kind': 'procs', 'model': spec.name}
+    alone = {}
+    # (at most four formula cells get their own interpreter: an interpreter
+    # start costs more than the whole rest of a model's schedules)
+    judged = [c for c in cells if c in spec.formulas][-4:]
+    for c in judged:
+        r = fresh_process(spec, [c])
+        if r is None:
+            from .. import runner
+            raise runner.HarnessError('c05_proc failed for %s %s'
+                                      % (spec.name, c))
+        alone[c] = r[c]
+    for oname, order in (('forward', cells), ('reverse', cells[::-1])):
+        r = fresh_process(spec, order)
+        for c in judged:
+            ctx.check('C05/%s/procs/%s/%s' % (spec.name, oname, short(c)),
+                      r[c] if r else 'process-failed', alone[c],
+                      ['oracle:fresh-process', 'order:' + oname], inputs,
+                      c in spec.formulas)
+        ctx.count('transitions', len(cells))
+        ctx.count('states')
+
+
 def plan(tier):
     shards = []
     for f in models.ALL_C05:
         spec = f()
         cells = spec.eval_cells
+        shards.append({'model': spec.name, 'kind': 'procs', 'weight': 5})
         for first in range(len(cells)):
             shards.append({'model': spec.name, 'kind': 'seq', 'first': first,
                            'len': SEQ_LEN[tier]})
@@ -294,7 +358,9 @@ def plan(tier):
 def run_shard(shard, ctx):
     spec = models.by_name(shard['model'])
     cells = spec.eval_cells
-    if shard['kind'] == 'seq':
+    if shard['kind'] == 'procs':
+        run_procs(spec, ctx)
+    elif shard['kind'] == 'seq':
         first = cells[shard['first']]
         for n in range(0, shard['len']):
             for rest in itertools.product(cells, repeat=n):
@@ -311,7 +377,9 @@ def run_shard(shard, ctx):
 
 def replay(inputs, ctx):
     spec = models.by_name(inputs['model'])
-    if inputs['kind'] == 'seq':
+    if inputs['kind'] == 'procs':
+        run_procs(spec, ctx)
+    elif inputs['kind'] == 'seq':
         run_seq(spec, inputs['seq'], ctx)
     elif inputs['kind'] == 'multi':
         run_multi(spec, [tuple(x) for x in inputs['seq']], ctx)
